@@ -12,7 +12,10 @@ plan = {"root": dir, "umask": int|null, "steps": [step, ..]} ; a step is
         Task.hash(), __jug_hash__() and hash_one() of it
   {"op": "run", "dir": d, "jugfile": f, "jugdir": j, "only": [task names] | null}   load, then run (in definition order) the tasks
         not yet stored whose name is in `only` (all, if null)
-  {"op": "cleanup", "dir": d, "jugfile": f, "jugdir": j}               load, then store.cleanup(the tasks of this load)"""
+  {"op": "cleanup", "dir": d, "jugfile": f, "jugdir": j}               load, then store.cleanup(the tasks of this load)
+  {"op": "generations", "dirs": [d1, d2, ..], "jugfile": f, "reloads": r}   ONE interpreter loads d1/f, then d2/f, .. (the same module
+        name every time, r loads each, as `jug execute` re-runs init() after every barrier): after each load the identifiers of the
+        jugfile's objects are recorded, then everything of that generation is dropped (module, tasks, gc.collect())"""
 import json
 import os
 import sys
@@ -96,6 +99,45 @@ def open_project(root, st, way='relative'):
     return store, space
 
 
+def collect(space):
+    objs = {}
+    for k in sorted(space):
+        v = space[k]
+        if k.startswith('_'):
+            continue
+        if is_obj(v):
+            objs[k] = idents(v)
+        elif isinstance(v, (list, tuple)) and v and all(is_obj(x) for x in v):
+            for i, x in enumerate(v):
+                objs['%s[%d]' % (k, i)] = idents(x)
+    return objs
+
+
+def generations(root, st):
+    import gc
+    out = []
+    for d in st['dirs']:
+        for r in range(st.get('reloads', 1)):
+            rec = {'dir': d, 'reload': r, 'nth_load_in_process': len(out) + 1}
+            try:
+                os.chdir(os.path.join(root, d))
+                store = jugrun.fresh()
+                _, space = jug.jug.init(st['jugfile'], store, on_error='propagate')
+                rec['objects'] = collect(space)
+                rec['n_tasks'] = len(jug.task.alltasks)
+                modname = st['jugfile'][:-3]
+                del space
+                sys.modules.pop(modname, None)
+                del jug.task.alltasks[:]
+                jug.task.Task.store = None
+                del store
+                gc.collect()
+            except BaseException as e:
+                rec['error'] = '%s: %s' % (type(e).__name__, e)
+            out.append(rec)
+    return out
+
+
 def project(root, st):
     out = []
     for way in st.get('ways', ['relative']):
@@ -153,6 +195,8 @@ def main():
                 out.append({'op': 'loads', 'records': loads(root, st['dir'])})
             elif st['op'] == 'project':
                 out.append({'op': 'project', 'records': project(root, st)})
+            elif st['op'] == 'generations':
+                out.append({'op': 'generations', 'records': generations(root, st)})
             elif st['op'] == 'run':
                 out.append(dict(run(root, st), op='run'))
             elif st['op'] == 'cleanup':
